@@ -273,6 +273,11 @@ func genUpgrade(g *Gen, n int) {
 				g.emit("v.vt Validators %d %d %s", 365*86400*sec, 365*86400*sec, "50000000000000000")
 			}
 			g.emit("v.vt Advisors %d %d 0", 100*86400*sec, 100*86400*sec)
+			if sc%2 == 1 {
+				// directed shape: a type with one of the NEW names exists already
+				g.emit("v.vt %s %d %d %s", esc(g.pick("Validator round", "Validator round", "VC round", "Public round")), 7*86400*sec, 9*86400*sec, "250000000000000000")
+				g.count("shape/new-type-name-exists")
+			}
 			owner := "c4e1p0smw03cwhqn05fkalfpcr0ngqv5jrpnx2cp54"
 			ls := now - int64(g.intn(400))*86400*sec
 			hasOwner := g.chance(0.9)
